@@ -404,6 +404,19 @@ def run_case(desc, seed):
                     ref = ref @ fam.dense(s_)
                 if not close(fam.dense(ps), ref, TOL, floor=1e-12):
                     add("C15:homomorphism:OpSum.product", f"[{fam.name}] OpSum.product over {combo}")
+        # the product over a one-element list is still a NEW expression: extending it in place must leave the operand untouched
+        for i in range(len(A)):
+            s_ = OpSum([A[i], A[(i + 1) % len(A)]])
+            before = fam.dense(s_)
+            ps = OpSum.product([s_])
+            try:
+                ps += A[0]
+                ps.append(A[0] * 2)
+            except Exception:
+                continue
+            counters["accepted_nodes"] += 1
+            if len(s_) != 2 or not close(fam.dense(s_), before, TOL, floor=1e-12):
+                add("C15:result-aliases-operand:OpSum.product-of-one", f"[{fam.name}] after r = OpSum.product([s]); r += A; r.append(2A) the operand s has {len(s_)} terms / denotes a different operator")
         if len(OpSum.product([])) != 0:
             add("C15:OpSum.product:empty", "product of nothing is not the empty sum")
         # split_elementary: the product of the elementary operators times the factor is the operator
